@@ -2857,6 +2857,16 @@ impl Compiler {
 
         let result = self.assign_result_register(ctx)?;
 
+        // An unused function still gets compiled so that errors in its body are reported.
+        // It's compiled into a temporary register, otherwise the function's body would be
+        // executed inline as part of the enclosing frame.
+        let is_unused = result.register.is_none();
+        let result = if is_unused {
+            CompileNodeOutput::with_temporary(self.push_register()?)
+        } else {
+            result
+        };
+
         let Node::FunctionArgs {
             args,
             variadic,
@@ -3002,14 +3012,14 @@ impl Compiler {
                     }
                 }
             }
-        } else {
-            // The function is unused, but compile the optional arg values to check for errors
-            for expression in optional_args.iter() {
-                self.compile_node(*expression, ctx.with_any_register())?;
-            }
         }
 
-        Ok(result)
+        if is_unused {
+            self.pop_register()?;
+            Ok(CompileNodeOutput::none())
+        } else {
+            Ok(result)
+        }
     }
 
     // Compiles a chained expression
